@@ -58,4 +58,10 @@ CHECKS = {
         "text": "For six callback configurations (unfiltered full/partial selection, detector maps, nonzero filter combinations, SimpleCalo) the set of steps each callback received equals the set of observed steps passing the collector's combined filter, every delivered field equals the independently observed pre/post value bit for bit, calorimeter totals equal sums of passing deposits, ActionDiagnostic / StepDiagnostic equal the counts of observed steps. F-DIAG-1 (ActionDiagnostic skipped with one slot) was found by this check and fixed.",
         "note": 'Trusted: TLC; the observer projection in harness/vsim.cc (reads Stepper::state_ref() through the public track views at generate/user_start/user_pre/user_post/end); quanta/rank/token abstraction of doubles; hand-built synthetic physics tables. The design model CoreLoopMC is exhaustive only within its constants (2-3 slots, <=2 secondaries per step, <=5 tracks, 3 iterations).',
     },
+    "C06": {
+        "engine": "tlc", "level": "model_checking", "design_ref": "DESIGN.md 4.3, 5 C06",
+        "technique": "TLC enumerates every history of Run/Abort+reset/WarmUp operations (Histories.tla, with the leftover-state model CleanBeforeRun); each history is replayed on one real Stepper state by harness/vhist under cycled re-indexing orders / action_times / status checker; TLC trace validation (HistoriesTrace.tla) requires bit-identical per-track step streams for equal (event, primaries, slots, layout, physics) keys",
+        "text": "All operation sequences of length 2 (quick) / 3 (thorough) over 3 events x 3 abort points are executed on real Stepper states with 1-32 slots, both slot layouts, mean/fluctuating loss; every completed event is compared token by token (all StepSelection::all() fields, bit patterns) with the first observation of the same key made under a different history or configuration; a rejection names the first differing step.",
+        "note": "Trusted: TLC; the interning of bit patterns in harness/vhist.cc (one table per process; equal keys are always executed in the same process). Thread-order independence is C07's half. The hand-built problem has no field/MSC/looping leftovers.",
+    },
 }
